@@ -221,7 +221,7 @@ NTABLE = len(TABLE)
 PARSED = [ast.parse(s, mode="eval").body for s, _ in TABLE]
 
 # operand kinds for the arithmetic / conditional promotion rules
-OPERANDS = [("e.n()", int), ("e.met()", float), ("e.unk()", Any), ("K", int), ("1.5", float), ("e.lead().idx()", int), ("e.Jets().Count()", int)]
+OPERANDS = [("e.n()", int), ("e.met()", float), ("e.unk()", Any), ("K", int), ("1.5", float), ("e.lead().idx()", int), ("e.Jets().Count()", int), ("e.ok()", bool)]
 BINOPS = [ast.Add, ast.Sub, ast.Mult, ast.Div, ast.Mod]
 
 
@@ -260,10 +260,10 @@ def c08a(code: int) -> str:
 
 def c08b(la: int, lb: int, op: int, form: int, k: int) -> str:
     """
-    pre: LO <= la < HI and 0 <= la < 7 and 0 <= lb < 7 and 0 <= op < 5 and 0 <= form <= 2
+    pre: LO <= la < HI and 0 <= la < 8 and 0 <= lb < 8 and 0 <= op < 5 and 0 <= form <= 2
     post: (_ == '') != TWIN
     """
-    la, lb, op, form = pick(la, max(LO, 0), min(HI, 7)), pick(lb, 0, 7), pick(op, 0, 5), pick(form, 0, 3)
+    la, lb, op, form = pick(la, max(LO, 0), min(HI, 8)), pick(lb, 0, 8), pick(op, 0, 5), pick(form, 0, 3)
     a, ta = operand(la, k)
     b, tb = operand(lb, k + 1)
     if form == 0:
@@ -271,14 +271,22 @@ def c08b(la: int, lb: int, op: int, form: int, k: int) -> str:
     elif form == 1:     # conditional: equal types keep the type, numeric mixes give float
         body = ast.IfExp(ast.parse("e.ok()", mode="eval").body, a, b)
         want = ta if ta == tb else float
+        if (ta is bool) != (tb is bool):
+            want = "refused"      # a truth value against a number: the designed refusal (incompatible branch types)
     else:               # comparison and boolean combination of arithmetic
         body = ast.BoolOp(ast.And(), [ast.Compare(ast.BinOp(a, BINOPS[op](), b), [ast.Gt()], [ast.Constant(k)]), ast.parse("e.ok()", mode="eval").body])
         want = bool
     tick()
     try:
         _, r, t = remap_by_types(TDS(), {"e": Evt}, body)
+    except ValueError as e:
+        if want == "refused":
+            return ""
+        return "raised ValueError: %s for %s" % (e, dump(body)[:200])
     except Exception as e:
         return "raised %s: %s for %s" % (type(e).__name__, e, dump(body)[:200])
+    if want == "refused":
+        return "" if t in (float, Any) else "type %r for a conditional between a truth value and a number: %s" % (t, dump(body)[:200])
     if t != want:
         return "type %r, rules say %r for %s" % (t, want, dump(body)[:200])
     return ""
